@@ -71,7 +71,7 @@ def run(ctx):
                 'thorough adds every section combination x equal/different versions x 8 names, plain and aliased. '
                 'pp case = (s1, s2) from literal/placeholder pools; thorough adds 155 templates x every s2 of length <=5 over {1 . - x}. '
                 'ws case = one dependency / parent / properties element (comments, CDATA, entities, attributes, white space, PIs inside or beside the addressed child) through the real writeString with the element\'s own version, a new one, or property values. '
-                'pch case = multi-module layout with 1-3 local parents, intermediate poms that inherit groupId / version, default and explicit relativePath, literal-version entries at every level (every third layout with ${project.groupId} / ${pom.groupId} group ids, the child having its own group id or the chain\'s), updates addressed to each, written to the same path or to another directory (parents must appear next to the output); '
+                'pch case = multi-module layout with 1-3 local parents, intermediate poms that inherit groupId / version, default and explicit relativePath, literal-version entries at every level (every third layout with ${project.groupId} / ${pom.groupId} group ids, the child having its own group id or the chain\'s), updates addressed to each, every fourth layout with two entries of the child on one property that a parent defines, both updated (the property moves in the parent, a conflicting second version is written out in the child), written to the same path or to another directory (parents must appear next to the output); '
                 '(every third layout: versions through a property defined by the declaring pom, by one of its ancestors, or overridden by a pom below it; entries in profiles of the manifest and of its parents; the new version of every update must be the text of some element of the written files); '
                 'pom case = abstract pom (every fifth with 1-2 pluginManagement plugins — half of them without <groupId> — holding 1-2 dependencies of their own; 1-4 dependencies, every third with a second declaration of one groupId:artifactId under another key (test-jar / classifier) and another version, dependencyManagement, 0-2 profiles, properties used as whole/prefix/suffix/two placeholders, ${project.version}; every sixth with group / artifact ids written through ${project.groupId} / ${pom.groupId} / ${project.version}, every twentieth through a property of the pom) rendered with '
                 'comments / one-line forms / namespaces, x update subsets drawn from the real Read (all subsets when <=4 in thorough) + the no-update case (plain, comment or CDATA in <version>); '
